@@ -11,6 +11,7 @@ lossless compress, ensure_left/right_canonical and a malformed-entry call, with
     the centre recomputed from the tensors, bond dimensions, labels/sector bookkeeping, idempotence.
 """
 import json
+import random
 import sys
 import traceback
 
@@ -20,9 +21,14 @@ import numpy as np
 import renormalizer.mps.svd_qn as SQ
 import renormalizer.mps.mp as MP
 
+from renormalizer.mps.lib import compressed_sum, _sum
+from renormalizer.utils import CompressConfig, CompressCriteria
+
 import c04_gen as G
 
 TOL = 1e-9
+from renormalizer.mps.backend import backend as _backend
+DOC_ATOL, DOC_RTOL = float(_backend.canonical_atol), float(_backend.canonical_rtol)     # documented tolerances (1e-8 / 1e-5)
 
 STATE = {"trace_push": None, "trace_upd": None, "calls": 0, "qr": 0, "svd": 0, "bad": [], "maxres": 0.0, "maxorth": 0.0,
          "blocks_deficient": 0}
@@ -250,15 +256,29 @@ class Case:
         if any(a > b for a, b in zip(dims, ref)):
             self.fail("dims_grown", op, {"before": ref, "after": dims})
 
-    def iso_checks(self, op, mp, swept_right, centre, scaled):
+    def iso_checks(self, op, mp, swept_right, centre, scaled, doc_tol=False):
+        """doc_tol: the object was returned untouched by ensure_*: a deviation is acceptable iff it is within the
+        documented tolerance |G - 1| <= canonical_atol + canonical_rtol * 1 (elementwise, computed here)"""
         st = self.out["stats"]
         ts = G.tensors(mp)
         worst = 0.0
         for j, a in enumerate(ts):
+            d = None
             if swept_right and j < centre:
-                worst = max(worst, site_iso(a, True, scaled))
+                d = site_iso(a, True, scaled)
+                left = True
             if (not swept_right) and j > centre:
-                worst = max(worst, site_iso(a, False, scaled))
+                d = site_iso(a, False, scaled)
+                left = False
+            if d is not None and doc_tol and d > TOL and not scaled:
+                m = a.reshape(-1, a.shape[-1]) if left else a.reshape(a.shape[0], -1).T
+                g = m.conj().T @ m
+                eye = np.eye(g.shape[0])
+                if np.all(np.abs(g - eye) <= DOC_ATOL + DOC_RTOL * eye):
+                    st["untouched_within_documented_tolerance"] = st.get("untouched_within_documented_tolerance", 0) + 1
+                    d = 0.0
+            if d is not None:
+                worst = max(worst, d)
             st["iso_sites"] = st.get("iso_sites", 0) + 1
         key = "max_iso_dev_scaled" if scaled else "max_iso_dev"
         st[key] = max(st.get(key, 0.0), worst)
@@ -289,7 +309,7 @@ def run_case(ci, spec, out):
         feat.append("dim1")
     key = "%s/%s/n%d/qn%d/%s" % (spec["kind"], spec["recipe"], n, spec["qn"], "c" if spec.get("complex") else "r")
     out["features"].append({"key": key, "feat": feat, "dims": dims0})
-    keep_flags = spec["recipe"].startswith("canon_")     # sums of canonical states are used with the flags they carry
+    keep_flags = spec["recipe"].startswith(("canon_", "near_"))     # used with the flags they carry
     for to_right in ((bool(obj.to_right),) if keep_flags else (True, False)):
         P = obj.copy() if keep_flags else set_direction(obj.copy(), to_right)
         before = snapshot(P)
@@ -373,9 +393,14 @@ def run_case(ci, spec, out):
                 c.fail("centre", "ensure_" + which, {"got": [int(E.qnidx), bool(E.to_right)], "want": list(want)})
             # whether or not a sweep was done, EVERY site but the advertised centre must be an isometry
             # (recomputed from the tensors; the package's own check_*_canonical is not consulted)
-            c.iso_checks("ensure_" + which + ("" if rec["push"] else "_untouched"), E, which == "left", want[0], is_op)
+            c.iso_checks("ensure_" + which + ("" if rec["push"] else "_untouched"), E, which == "left", want[0], is_op,
+                         doc_tol=not rec["push"])
             if not rec["push"]:
                 st["ensure_untouched"] = st.get("ensure_untouched", 0) + 1
+            if spec["recipe"].startswith("near_"):
+                k_ = "near_%s_ensure_%s_%s" % (spec["recipe"].split("_", 1)[1], which, "sweep" if rec["push"] else "untouched")
+                st.setdefault("near_canonical", {})
+                st["near_canonical"][k_] = st["near_canonical"].get(k_, 0) + 1
             # the result is in the state compress() asserts: a lossless compress must not change the object
             dE = G.dense(E)
             for variant in ("big", "ranks"):
@@ -389,6 +414,36 @@ def run_case(ci, spec, out):
                 c.common_checks("ensure_%s+compress_%s" % (which, variant), snapshot(E) | {"dense": dE}, Q)
                 if not is_op:
                     c.iso_checks("ensure_%s+compress_%s" % (which, variant), Q, which != "left", n - 1 - want[0], False)
+        # ---- G: compressed_sum / _sum with an explicit bond limit >= every rank, on states whose own compress_config
+        #         is stricter (default threshold 1e-3 or a small fixed max_bonddim): must equal the dense sum
+        if spec["kind"] == "mps" and n >= 2 and to_right is False and spec["recipe"] in ("random", "add", "apply_add", "scaled", "dup"):
+            try:
+                rng2 = random.Random(spec["seed"] + 13)
+                k_states = rng2.choice([2, 3, 7])
+                states = [set_direction(obj.copy(), False)]
+                for _ in range(k_states - 1):
+                    states.append(G.rand_like(rng2, obj, model, spec["qn"], int(spec.get("m", 4)), bool(spec.get("complex"))))
+                if rng2.random() < 0.5:
+                    for x_ in states:
+                        x_.compress_config = CompressConfig(CompressCriteria.fixed, max_bonddim=2)
+                ref = sum(G.dense(x_) for x_ in states)
+                if np.linalg.norm(ref) > 1e-6 * sum(np.linalg.norm(G.dense(x_)) for x_ in states):
+                    bnd = G.exact_bounds(obj)
+                    for variant, lim in (("int", max(bnd)), ("list", list(bnd))):
+                        for fname, fn_ in (("compressed_sum", lambda l, m_: compressed_sum(l, temp_m_trunc=m_)),
+                                           ("_sum", lambda l, m_: _sum(l, temp_m_trunc=m_))):
+                            if fname == "_sum" and k_states == 7:
+                                continue
+                            res_ = fn_([x_.copy() for x_ in states], lim)
+                            e_ = relerr(G.dense(res_), ref)
+                            st["compressed_sum_checks"] = st.get("compressed_sum_checks", 0) + 1
+                            st["max_compressed_sum_err"] = max(st.get("max_compressed_sum_err", 0.0), e_)
+                            if not e_ <= 1e-10:
+                                c.fail("compressed_sum", "%s(%d states, temp_m_trunc=%s)" % (fname, k_states, variant), {"relerr": e_, "limit": lim})
+                            if any(int(d_) > b_ for d_, b_ in zip(res_.bond_dims, bnd)):
+                                c.fail("compressed_sum_limit", fname, {"dims": [int(d_) for d_ in res_.bond_dims], "bounds": bnd})
+            except G.GenFail:
+                pass
         # ---- F: malformed entry (centre at the wrong end): both sides must reject
         if n >= 2:
             F = P.copy()
